@@ -203,7 +203,10 @@ func (c19) Check(ctx *core.Ctx, c *core.Case) {
 		"- <?p\n" + strings.Repeat(" ", w+2) + "?>\n\n" + strings.Repeat("> ", 3+w%40) + "deep\n\n" +
 		strings.Repeat(" ", 3) + strings.Repeat("1", 1+w%9) + ". item\n\n" + strings.Repeat("#", 1+w%6) + " h " + strings.Repeat("*", w%30) + "\n\n" +
 		"```" + strings.Repeat("`", w) + "\n" + strings.Repeat(" ", w) + "code\n```" + strings.Repeat("`", w) + "\n"
-	shared := bytes.Join(append(append([][]byte(nil), docs[:6]...), []byte(extremes)), []byte("\n\n"))
+	// The tree starts with a heading whose text could be a list marker: the formatter's very
+	// first decision then depends on the initial state of its writer (seeded change C19-i: a
+	// pooled writer handed out in two different initial states).
+	shared := bytes.Join(append(append([][]byte{[]byte("# 1. Introduction")}, docs[:6]...), []byte(extremes)), []byte("\n\n"))
 	sBlocks, sRefs, _ := core.ParseCopy(shared)
 
 	// ---- phase B0 ("cold"): the shared tree is rendered, formatted and walked concurrently
